@@ -1405,6 +1405,185 @@ Proof.
       * rewrite (PnR u (pa_sel str0 Ar0 u Hu)). apply (pa_sel_user sr3 Asr3 u Hu).
 Qed.
 
+Lemma pfull_join_case sL sR stl str0 on (UL UR : list uid) :
+  PInv sL stl -> PAux stl -> PInv sR str0 -> PAux str0 ->
+  keys_in UL (rows sL) -> keys_in UR (rows sR) ->
+  (forall x, In x (cols on) -> In x (dom (p_ns stl) ++ dom (p_ns str0))) ->
+  (forall x, In x (dom (p_ns stl)) -> ~ In x (dom (p_ns str0))) ->
+  (forall x, In x (dom (p_ns stl)) -> ~ In x UR) -> (forall x, In x (dom (p_ns str0)) -> ~ In x UL) ->
+  (forall u v, In u (p_select stl) -> In v (p_select str0) -> uname (pname (p_ns stl) u) <> uname (pname (p_ns str0) v)) ->
+  PInv (do_join sL sR on JFull) (pl_full_join stl str0 on) /\ PAux (pl_full_join stl str0 on).
+Proof.
+  intros [Rl Sl Gl] Al [Rr Sr Gr] Ar0 KL KR Son Dd DsR DsL Vis.
+  set (M := p_ctr stl + List.length (p_select str0)).
+  set (sr := shift_names M str0).
+  set (news1 := map (fun u => uname (pname (p_ns stl) u)) (p_select stl)).
+  set (sr1 := rename_over news1 (p_keys sr) sr).
+  set (news2 := map (fun u => uname (pname (p_ns sr1) u)) (p_select sr1)).
+  set (sl2 := rename_over news2 (p_keys stl) stl).
+  set (news3 := user_names (p_keys sl2)).
+  set (sr3 := rename_over news3 (p_keys sr1) sr1).
+  (* the right frame through the shift and the two passes *)
+  pose proof (sh_aux str0 M Ar0) as Asr. fold sr in Asr.
+  pose proof (sh_rows str0 M Ar0 _ Rr) as Rsr. fold sr in Rsr.
+  assert (Dsr : dom (p_ns sr) = dom (p_ns str0)) by (apply sh_dom).
+  assert (Nsr : forall v, In v (dom (p_ns str0)) -> uname (pname (p_ns sr) v) = uname (pname (p_ns str0) v)).
+  { intros v Hv. unfold sr. rewrite sh_pname by exact Hv. apply uname_shift. }
+  assert (Asr1 : PAux sr1).
+  { apply ro_aux; [exact Asr|]. intros v Hv. cbn [p_select sr shift_names] in Hv.
+    destruct (mem_s _ news1) eqn:E; [|reflexivity]. exfalso. apply mem_s_In in E. unfold news1 in E.
+    apply in_map_iff in E. destruct E as [u [E Hu]]. rewrite Nsr in E by (apply (pa_sel str0 Ar0); exact Hv).
+    apply (Vis u v Hu Hv). exact E. }
+  pose proof (ro_rows sr news1 (p_keys sr) Asr _ Rsr) as Rsr1. fold sr1 in Rsr1.
+  assert (Dsr1 : dom (p_ns sr1) = dom (p_ns str0)) by (unfold sr1; rewrite ro_dom; exact Dsr).
+  assert (Nsr1 : forall v, In v (dom (p_ns str0)) -> uname (pname (p_ns sr1) v) = uname (pname (p_ns str0) v)).
+  { intros v Hv. unfold sr1. rewrite ro_pname by (rewrite Dsr; exact Hv). rewrite uname_ren_over. apply Nsr. exact Hv. }
+  (* the left frame through pass 2 *)
+  assert (Asl2 : PAux sl2).
+  { apply ro_aux; [exact Al|]. intros u Hu.
+    destruct (mem_s _ news2) eqn:E; [|reflexivity]. exfalso. apply mem_s_In in E. unfold news2 in E.
+    apply in_map_iff in E. destruct E as [v [E Hv]]. cbn [p_select sr1 rename_over sr shift_names] in Hv.
+    rewrite Nsr1 in E by (apply (pa_sel str0 Ar0); exact Hv). apply (Vis u v Hu Hv). symmetry. exact E. }
+  pose proof (ro_rows stl news2 (p_keys stl) Al _ Rl) as Rsl2. fold sl2 in Rsl2.
+  assert (Dsl2 : dom (p_ns sl2) = dom (p_ns stl)) by (unfold sl2; apply ro_dom).
+  assert (Csl2 : p_ctr sl2 = M).
+  { unfold sl2, rename_over. cbn [p_ctr]. unfold news2, M. rewrite map_length. reflexivity. }
+  (* pass 3 *)
+  assert (Asr3 : PAux sr3).
+  { apply ro_aux; [exact Asr1|]. intros v Hv. cbn [p_select sr1 rename_over sr shift_names] in Hv.
+    destruct (mem_s _ news3) eqn:E; [|reflexivity]. exfalso. unfold news3 in E. apply user_names_In in E.
+    set (m := uname (pname (p_ns sr1) v)) in *.
+    unfold sl2, rename_over in E. cbn [p_keys] in E. apply in_map_iff in E. destruct E as [k0 [E Hk0]].
+    revert E. apply ren_over_not_user; [|auto|apply mem_d_In; exact Hk0].
+    apply mem_s_In. unfold news2. apply in_map_iff. exists v. split; [reflexivity|exact Hv]. }
+  pose proof (ro_rows sr1 news3 (p_keys sr1) Asr1 _ Rsr1) as Rsr3. fold sr3 in Rsr3.
+  assert (Dsr3 : dom (p_ns sr3) = dom (p_ns str0)) by (unfold sr3; rewrite ro_dom; exact Dsr1).
+  (* suffix numbers: left below M, right at or above M *)
+  assert (LB3 : forall x, In x (p_keys sr3) -> lbounded M x).
+  { apply ro_keys_lb.
+    - unfold sr1, rename_over, sr, shift_names. cbn [p_ctr]. lia.
+    - apply ro_keys_lb; [unfold sr, shift_names; cbn [p_ctr]; lia|]. intros x Hx. apply (sh_keys_lb str0 M x Hx). }
+  assert (KD : forall k, In k (p_keys sl2) -> In k (p_keys sr3) -> False).
+  { intros k Hl Hr. destruct k as [m|n c].
+    - unfold sr3, rename_over in Hr. cbn [p_keys] in Hr. apply in_map_iff in Hr. destruct Hr as [k1 [E Hk1]].
+      revert E. apply ren_over_not_user; [|auto|apply mem_d_In; exact Hk1].
+      unfold news3. apply user_names_In. exact Hl.
+    - pose proof (pa_keys_b sl2 Asl2 _ Hl) as B. rewrite Csl2 in B. pose proof (LB3 _ Hr) as L. simpl in B, L. lia. }
+  set (ns := p_ns sl2 ++ p_ns sr3).
+  assert (PnL : forall u, In u (dom (p_ns stl)) -> pname ns u = pname (p_ns sl2) u).
+  { intros u Hu. apply pname_app_l. rewrite Dsl2. exact Hu. }
+  assert (PnR : forall u, In u (dom (p_ns str0)) -> pname ns u = pname (p_ns sr3) u).
+  { intros u Hu. apply pname_app_r. rewrite Dsl2. intros C. apply (Dd u C Hu). }
+  (* a joined reference row and the joined frame row *)
+  assert (PJ : forall lr rr fl fr, In lr (rows sL) -> In rr (rows sR) -> In fl (p_rows sl2) -> In fr (p_rows sr3) ->
+                prel (p_ns sl2) lr fl -> prel (p_ns sr3) rr fr -> prel ns (lr ++ rr)%list (fl ++ fr)%list).
+  { intros lr rr fl fr Hlr Hrr Hfl Hfr Pl Pr u Hu. unfold ns, dom in Hu. rewrite map_app in Hu. apply in_app_or in Hu. destruct Hu as [Hu|Hu].
+    - fold (dom (p_ns sl2)) in Hu. assert (Hu' : In u (dom (p_ns stl))) by (rewrite <- Dsl2; exact Hu).
+      rewrite get_app_nokey_r by (intros C; apply (DsR u Hu'); apply (KR rr u Hrr C)).
+      rewrite (PnL u Hu'). rewrite (Pl u Hu).
+      symmetry. apply nget_app_nokey_r. intros C. apply (KD (pname (p_ns sl2) u)); [apply (pa_ns_keys sl2 Asl2 u Hu)|].
+      apply in_map_iff in C. destruct C as [kv [E Hkv]]. rewrite <- E. apply (pa_rows_k sr3 Asr3 fr kv Hfr Hkv).
+    - fold (dom (p_ns sr3)) in Hu. assert (Hu' : In u (dom (p_ns str0))) by (rewrite <- Dsr3; exact Hu).
+      rewrite get_app_nokey_l by (intros C; apply (DsL u Hu'); apply (KL lr u Hlr C)).
+      rewrite (PnR u Hu'). rewrite (Pr u Hu).
+      symmetry. apply nget_app_nokey_l. intros C. apply (KD (pname (p_ns sr3) u)); [|apply (pa_ns_keys sr3 Asr3 u Hu)].
+      apply in_map_iff in C. destruct C as [kv [E Hkv]]. rewrite <- E. apply (pa_rows_k sl2 Asl2 fl kv Hfl Hkv). }
+  assert (PU : forall lr fl, In lr (rows sL) -> In fl (p_rows sl2) -> prel (p_ns sl2) lr fl -> prel ns lr fl).
+  { intros lr fl Hlr Hfl Pl u Hu. unfold ns, dom in Hu. rewrite map_app in Hu. apply in_app_or in Hu. destruct Hu as [Hu|Hu].
+    - fold (dom (p_ns sl2)) in Hu. assert (Hu' : In u (dom (p_ns stl))) by (rewrite <- Dsl2; exact Hu).
+      rewrite (PnL u Hu'). apply (Pl u Hu).
+    - fold (dom (p_ns sr3)) in Hu. assert (Hu' : In u (dom (p_ns str0))) by (rewrite <- Dsr3; exact Hu).
+      rewrite get_nokey by (intros C; apply (DsL u Hu'); apply (KL lr u Hlr C)).
+      rewrite (PnR u Hu'). symmetry. apply nget_nokey. intros C.
+      apply (KD (pname (p_ns sr3) u)); [|apply (pa_ns_keys sr3 Asr3 u Hu)].
+      apply in_map_iff in C. destruct C as [kv [E Hkv]]. rewrite <- E. apply (pa_rows_k sl2 Asl2 fl kv Hfl Hkv). }
+  assert (PUR : forall rr fr, In rr (rows sR) -> In fr (p_rows sr3) -> prel (p_ns sr3) rr fr -> prel ns rr fr).
+  { intros rr fr Hrr Hfr Pr u Hu. unfold ns, dom in Hu. rewrite map_app in Hu. apply in_app_or in Hu. destruct Hu as [Hu|Hu].
+    - fold (dom (p_ns sl2)) in Hu. assert (Hu' : In u (dom (p_ns stl))) by (rewrite <- Dsl2; exact Hu).
+      rewrite get_nokey by (intros C; apply (DsR u Hu'); apply (KR rr u Hrr C)).
+      rewrite (PnL u Hu'). symmetry. apply nget_nokey. intros C.
+      apply (KD (pname (p_ns sl2) u)); [apply (pa_ns_keys sl2 Asl2 u Hu)|].
+      apply in_map_iff in C. destruct C as [kv [E Hkv]]. rewrite <- E. apply (pa_rows_k sr3 Asr3 fr kv Hfr Hkv).
+    - fold (dom (p_ns sr3)) in Hu. assert (Hu' : In u (dom (p_ns str0))) by (rewrite <- Dsr3; exact Hu).
+      rewrite (PnR u Hu'). apply (Pr u Hu). }
+  assert (DomNs : dom ns = dom (p_ns stl) ++ dom (p_ns str0)).
+  { unfold ns, dom. rewrite map_app. fold (dom (p_ns sl2)) (dom (p_ns sr3)). rewrite Dsl2, Dsr3. reflexivity. }
+  split.
+  - constructor.
+    + cbn [rows do_join p_rows pl_full_join]. fold M sr news1 sr1 news2 sl2 news3 sr3 ns.
+      assert (HinL : Forall2 (fun lr fl => prel (p_ns sl2) lr fl /\ In lr (rows sL) /\ In fl (p_rows sl2)) (rows sL) (p_rows sl2)).
+      { pose proof (Forall2_with_In _ _ _ Rsl2) as H1.
+        pose proof (Forall2_flip' _ _ _ (Forall2_with_In _ _ _ (Forall2_flip' _ _ _ Rsl2))) as H2.
+        pose proof (Forall2_and _ _ _ _ H1 H2) as H3. eapply Forall2_impl'; [|exact H3]. intros lr fl [[A1 A2] [_ A3]]. auto. }
+      assert (HinR : Forall2 (fun rr fr => prel (p_ns sr3) rr fr /\ In rr (rows sR) /\ In fr (p_rows sr3)) (rows sR) (p_rows sr3)).
+      { pose proof (Forall2_with_In _ _ _ Rsr3) as H1.
+        pose proof (Forall2_flip' _ _ _ (Forall2_with_In _ _ _ (Forall2_flip' _ _ _ Rsr3))) as H2.
+        pose proof (Forall2_and _ _ _ _ H1 H2) as H3. eapply Forall2_impl'; [|exact H3]. intros rr fr [[A1 A2] [_ A3]]. auto. }
+      assert (OnEq : forall lr fl rr fr, prel (p_ns sl2) lr fl -> In lr (rows sL) -> In fl (p_rows sl2) ->
+                       prel (p_ns sr3) rr fr -> In rr (rows sR) -> In fr (p_rows sr3) ->
+                       on_true on lr rr = value_eqb (eval [] (0, view ns (fl ++ fr)%list) on) (VBool true)).
+      { intros lr fl rr fr Pl Hlr Hfl Pr Hrr Hfr. unfold on_true. f_equal.
+        apply eval_rel; [constructor|]. split; [reflexivity|]. intros x Hx. cbn [snd].
+        assert (Hd : In x (dom ns)) by (rewrite DomNs; apply Son; exact Hx).
+        rewrite get_view by exact Hd. apply (PJ lr rr fl fr Hlr Hrr Hfl Hfr Pl Pr x Hd). }
+      apply Forall2_app.
+      * apply (Forall2_flat_map (fun lr fl => prel (p_ns sl2) lr fl /\ In lr (rows sL) /\ In fl (p_rows sl2))); [exact HinL|].
+        intros lr fl [Pl [Hlr Hfl]]. unfold join_branch.
+        assert (Hf : Forall2 (fun rr fr => prel (p_ns sr3) rr fr /\ In rr (rows sR) /\ In fr (p_rows sr3))
+                             (filter (on_true on lr) (rows sR))
+                             (filter (fun fr => value_eqb (eval [] (0, view ns (fl ++ fr)%list) on) (VBool true)) (p_rows sr3))).
+        { apply Forall2_filter; [exact HinR|]. intros rr fr [Pr [Hrr Hfr]]. apply (OnEq lr fl rr fr); assumption. }
+        assert (G2 : Forall2 (prel ns) (map (fun rr => (lr ++ rr)%list) (filter (on_true on lr) (rows sR)))
+                             (map (fun fr => (fl ++ fr)%list) (filter (fun fr => value_eqb (eval [] (0, view ns (fl ++ fr)%list) on) (VBool true)) (p_rows sr3)))).
+        { apply Forall2_map_l. apply Forall2_map_r. eapply Forall2_impl'; [|exact Hf]. intros rr fr [Pr [Hrr Hfr]].
+          apply (PJ lr rr fl fr Hlr Hrr Hfl Hfr Pl Pr). }
+        destruct (filter (on_true on lr) (rows sR)) as [|rr0 rs0];
+          destruct (filter (fun fr => value_eqb (eval [] (0, view ns (fl ++ fr)%list) on) (VBool true)) (p_rows sr3)) as [|fr0 fs0];
+          [constructor; [apply (PU lr fl Hlr Hfl Pl)|constructor] | inversion Hf | inversion Hf | exact G2].
+      * assert (Hf : Forall2 (fun rr fr => prel (p_ns sr3) rr fr /\ In rr (rows sR) /\ In fr (p_rows sr3))
+                             (filter (fun rr => negb (existsb (fun lr => on_true on lr rr) (rows sL))) (rows sR))
+                             (filter (fun fr => negb (existsb (fun fl => value_eqb (eval [] (0, view ns (fl ++ fr)%list) on) (VBool true)) (p_rows sl2))) (p_rows sr3))).
+        { apply Forall2_filter; [exact HinR|]. intros rr fr [Pr [Hrr Hfr]]. f_equal.
+          clear -HinL OnEq Pr Hrr Hfr. induction HinL as [|lr fl L L' [Pl [Hlr Hfl]] _ IH]; [reflexivity|].
+          simpl. rewrite (OnEq lr fl rr fr Pl Hlr Hfl Pr Hrr Hfr), IH. reflexivity. }
+        eapply Forall2_impl'; [|exact Hf]. intros rr fr [Pr [Hrr Hfr]]. apply (PUR rr fr Hrr Hfr Pr).
+    + cbn [sel do_join p_ns p_select pl_full_join]. fold M sr news1 sr1 news2 sl2 news3 sr3 ns. rewrite map_app, Sl, Sr. f_equal.
+      * apply map_ext_in. intros u Hu. f_equal. pose proof (pa_sel stl Al u Hu) as Hd. rewrite (PnL u Hd).
+        unfold sl2. rewrite ro_pname by exact Hd. rewrite uname_ren_over. reflexivity.
+      * apply map_ext_in. intros v Hv. f_equal. pose proof (pa_sel str0 Ar0 v Hv) as Hd. rewrite (PnR v Hd).
+        unfold sr3. rewrite ro_pname by (rewrite Dsr1; exact Hd). rewrite uname_ren_over. symmetry. apply Nsr1. exact Hd.
+    + reflexivity.
+  - constructor; cbn [p_rows p_ns p_select p_part p_ctr p_keys pl_full_join]; fold M sr news1 sr1 news2 sl2 news3 sr3 ns.
+    + intros u Hu. rewrite DomNs. apply in_or_app. apply in_app_or in Hu.
+      destruct Hu as [Hu|Hu]; [left; apply (pa_sel stl Al u Hu)|right; apply (pa_sel str0 Ar0 u Hu)].
+    + intros u Hu. destruct Hu.
+    + intros un Hun. unfold ns in Hun. apply in_app_or in Hun. destruct Hun as [Hun|Hun].
+      * apply (bounded_mono (p_ctr sl2)); [|apply (pa_ns_b sl2 Asl2 un Hun)]. rewrite Csl2.
+        unfold sr3, sr1, sr. unfold rename_over, shift_names. cbn [p_ctr]. lia.
+      * apply (pa_ns_b sr3 Asr3 un Hun).
+    + intros k Hk. apply in_app_or in Hk. destruct Hk as [Hk|Hk].
+      * apply (bounded_mono (p_ctr sl2)); [|apply (pa_keys_b sl2 Asl2 k Hk)]. rewrite Csl2.
+        unfold sr3, sr1, sr. unfold rename_over, shift_names. cbn [p_ctr]. lia.
+      * apply (pa_keys_b sr3 Asr3 k Hk).
+    + intros f kv Hf Hkv. apply in_app_or in Hf. destruct Hf as [Hf|Hf].
+      * apply in_flat_map in Hf. destruct Hf as [fl [Hfl Hf]].
+        match type of Hf with context [filter ?p ?L] => destruct (filter p L) as [|m ms] eqn:Ef end.
+        -- destruct Hf as [<-|[]]. apply in_or_app. left. apply (pa_rows_k sl2 Asl2 fl kv Hfl Hkv).
+        -- change (In f (map (fun fr : nrow => (fl ++ fr)%list) (m :: ms))) in Hf.
+           apply in_map_iff in Hf. destruct Hf as [fr [<- Hfr]].
+           assert (Hfr' : In fr (p_rows sr3)).
+           { assert (Hin : In fr (m :: ms)) by exact Hfr. rewrite <- Ef in Hin. apply filter_In in Hin. tauto. }
+           apply in_or_app. apply in_app_or in Hkv.
+           destruct Hkv as [Hkv|Hkv]; [left; apply (pa_rows_k sl2 Asl2 fl kv Hfl Hkv)|right; apply (pa_rows_k sr3 Asr3 fr kv Hfr' Hkv)].
+      * apply filter_In in Hf. destruct Hf as [Hf _]. apply in_or_app. right. apply (pa_rows_k sr3 Asr3 f kv Hf Hkv).
+    + intros u Hu. rewrite DomNs in Hu. apply in_or_app. apply in_app_or in Hu. destruct Hu as [Hu|Hu].
+      * left. rewrite (PnL u Hu). apply (pa_ns_keys sl2 Asl2). rewrite Dsl2. exact Hu.
+      * right. rewrite (PnR u Hu). apply (pa_ns_keys sr3 Asr3). rewrite Dsr3. exact Hu.
+    + intros u Hu. apply in_app_or in Hu. destruct Hu as [Hu|Hu].
+      * rewrite (PnL u (pa_sel stl Al u Hu)). apply (pa_sel_user sl2 Asl2 u Hu).
+      * rewrite (PnR u (pa_sel str0 Ar0 u Hu)). apply (pa_sel_user sr3 Asr3 u Hu).
+Qed.
+
 Theorem pl_compile_invariant d : forall a st,
   pl_compile d a = Some st -> pflat_ok d a = true -> PInv (sem_ref d a) st /\ PAux st.
 Proof.
@@ -1470,6 +1649,23 @@ Proof.
       apply andb_prop in F3. destruct F3 as [F3 FdR]. apply andb_prop in F3. destruct F3 as [Fon Fdd].
       destruct (IHl stl eq_refl Fl) as [Il Al]. destruct (IHr str eq_refl Fr) as [Ir Ar].
       cbn [sem_ref]. apply (pleft_join_case _ _ stl str on (ast_uids l) (ast_uids r)); try assumption.
+      * apply (rk_rows _ _ (ref_keys d l)).
+      * apply (rk_rows _ _ (ref_keys d r)).
+      * apply forallb_mem_incl. exact Fon.
+      * apply disjointb_spec. exact Fdd.
+      * apply disjointb_spec. exact FdR.
+      * apply disjointb_spec. exact FdL.
+      * intros u v Hu Hv E. rewrite forallb_forall in Fvis. specialize (Fvis u Hu). apply negb_true_iff in Fvis.
+        assert (C : mem_s (uname (pname (p_ns stl) u)) (map (fun x => uname (pname (p_ns str) x)) (p_select str)) = true).
+        { apply mem_s_In. rewrite E. apply (in_map (fun x => uname (pname (p_ns str) x))). exact Hv. }
+        rewrite C in Fvis. discriminate Fvis.
+    + destruct (pl_compile d l) as [stl|] eqn:El; [|discriminate C]. destruct (pl_compile d r) as [str|] eqn:Er; [|discriminate C].
+      inversion C; subst; clear C.
+      apply andb_prop in F. destruct F as [F F3]. apply andb_prop in F. destruct F as [Fl Fr].
+      apply andb_prop in F3. destruct F3 as [F3 Fvis]. apply andb_prop in F3. destruct F3 as [F3 FdL].
+      apply andb_prop in F3. destruct F3 as [F3 FdR]. apply andb_prop in F3. destruct F3 as [Fon Fdd].
+      destruct (IHl stl eq_refl Fl) as [Il Al]. destruct (IHr str eq_refl Fr) as [Ir Ar].
+      cbn [sem_ref]. apply (pfull_join_case _ _ stl str on (ast_uids l) (ast_uids r)); try assumption.
       * apply (rk_rows _ _ (ref_keys d l)).
       * apply (rk_rows _ _ (ref_keys d r)).
       * apply forallb_mem_incl. exact Fon.
